@@ -82,6 +82,211 @@ pub fn ans_to_text(id: &Value, a: &Ans) -> String {
 	}
 }
 
+#[derive(Clone, Copy, Debug)]
+pub struct PeerCfg {
+	pub hostile: bool,
+	pub id_kind_str: bool,
+}
+
+/// The scripted peer: answers every outstanding request exactly once, in drawn order, with unique payloads;
+/// interleaves notifications; in hostile mode also duplicates answers and invents ids.
+pub fn spawn_peer(wire: Wire, peer_log: Arc<Mutex<PeerLog>>, cfg: PeerCfg) -> tokio::task::JoinHandle<()> {
+	let PeerCfg { hostile, id_kind_str } = cfg;
+	rt::spawn("peer", async move {
+		// (entries (nonce, id), is_sub, is_batch)
+		let mut outstanding: Vec<(Vec<(Option<u64>, Value)>, bool, bool)> = Vec::new();
+		// single calls already answered: (nonce, id)
+		let mut answered: Vec<(Option<u64>, Value)> = Vec::new();
+		let mut live_subs: Vec<Value> = Vec::new();
+		let mut next_val = 1_000_000u64;
+		let mut next_sub = 500u64;
+		let register = |m: super::OutMsg, outstanding: &mut Vec<(Vec<(Option<u64>, Value)>, bool, bool)>| match parse_out(&m.text) {
+			Parsed::Call { id, method, params } => outstanding.push((vec![(nonce_of(&params), id)], method == "sub", false)),
+			Parsed::Batch(es) => {
+				let ids: Vec<(Option<u64>, Value)> = es
+					.iter()
+					.filter_map(|e| if let Parsed::Call { id, params, .. } = e { Some((nonce_of(params), id.clone())) } else { None })
+					.collect();
+				if !ids.is_empty() {
+					outstanding.push((ids, false, true));
+				}
+			}
+			_ => {}
+		};
+		loop {
+			while let Some(m) = wire.try_next_out() {
+				register(m, &mut outstanding);
+			}
+			if outstanding.is_empty() {
+				match wire.next_out().await {
+					Some(m) => register(m, &mut outstanding),
+					None => break,
+				}
+				continue;
+			}
+			let act = rt::draw("peer-act", 10);
+			match act {
+				0..=4 | 8 | 9 => {
+					if (act == 8 || act == 9) && hostile {
+						// hostile: duplicate an earlier answer (new nonce) or invent an id
+						peer_log.lock().unwrap().hostile_actions += 1;
+						rt::probe("hostile_action");
+						if act == 8 && !answered.is_empty() {
+							let (nonce, id) = rt::pick("dup-id", &answered).clone();
+							next_val += 1;
+							let a = Ans::Ok(json!(next_val));
+							let seq = wire.push_text(ans_to_text(&id, &a));
+							peer_log.lock().unwrap().answers.push(Answer { nonce, id: id.to_string(), ans: a, push_seq: seq, kind: "dup" });
+						} else {
+							let id = if id_kind_str { json!("77777") } else { json!(77777) };
+							next_val += 1;
+							let a = Ans::Ok(json!(next_val));
+							let seq = wire.push_text(ans_to_text(&id, &a));
+							peer_log.lock().unwrap().answers.push(Answer { nonce: None, id: id.to_string(), ans: a, push_seq: seq, kind: "unknown" });
+						}
+						continue;
+					}
+					let k = rt::draw("which", outstanding.len() as u32) as usize;
+					let (ids, is_sub, is_batch) = outstanding.remove(k);
+					let mut mk = |nonce: Option<u64>, id: &Value, is_sub: bool| -> (String, Answer) {
+						let a = if rt::chance("err", 1, 4) {
+							next_val += 1;
+							Ans::Err(-32000 - (next_val % 90) as i64, format!("e{next_val}"), if next_val % 2 == 0 { Some(json!({"n": next_val})) } else { None })
+						} else if is_sub {
+							next_sub += 1;
+							let sid = if next_sub % 2 == 0 { json!(next_sub) } else { json!(format!("s{next_sub}")) };
+							live_subs.push(sid.clone());
+							Ans::Ok(sid)
+						} else {
+							next_val += 1;
+							Ans::Ok(json!(next_val))
+						};
+						(ans_to_text(id, &a), Answer { nonce, id: id.to_string(), ans: a, push_seq: 0, kind: "first" })
+					};
+					if !is_batch {
+						let (text, mut a) = mk(ids[0].0, &ids[0].1, is_sub);
+						a.push_seq = wire.push_text(text);
+						answered.push(ids[0].clone());
+						peer_log.lock().unwrap().answers.push(a);
+					} else {
+						// batch reply in a drawn permutation
+						let mut parts: Vec<(String, Answer)> = ids.iter().map(|i| mk(i.0, &i.1, false)).collect();
+						let mut order = Vec::new();
+						while !parts.is_empty() {
+							let j = rt::draw("perm", parts.len() as u32) as usize;
+							order.push(parts.remove(j));
+						}
+						let text = format!("[{}]", order.iter().map(|p| p.0.as_str()).collect::<Vec<_>>().join(","));
+						let seq = wire.push_text(text);
+						for (_, mut a) in order {
+							a.push_seq = seq;
+							peer_log.lock().unwrap().answers.push(a);
+						}
+					}
+				}
+				5 => {
+					let ms = rt::draw_range("lat", 1, 40);
+					tokio::time::sleep(Duration::from_millis(ms as u64)).await;
+				}
+				6 => {
+					// noise: notifications, singly or grouped
+					rt::probe("noise");
+					let mut items = Vec::new();
+					for _ in 0..rt::draw_range("noise_n", 1, 3) {
+						next_val += 1;
+						items.push(match rt::draw("noise_kind", 3) {
+							0 => method_notif("noise", Some(&json!([next_val]))),
+							1 if !live_subs.is_empty() => sub_notif("n", rt::pick("ls", &live_subs), &json!(next_val)),
+							_ => sub_notif("n", &json!(424242), &json!(next_val)),
+						});
+					}
+					if items.len() > 1 && rt::chance("group", 1, 2) {
+						wire.push_text(format!("[{}]", items.join(",")));
+					} else {
+						for i in items {
+							wire.push_text(i);
+						}
+					}
+				}
+				_ => rt::yield_n(1).await,
+			}
+		}
+	})
+}
+
+/// Execute one front-end operation against the client and record its outcome.
+pub async fn run_op(client: &Client, ti: usize, op: &PlanOp, nonce_ctr: &std::sync::atomic::AtomicU64, held: &mut Vec<Subscription<Value>>) -> OpRec {
+	let fresh = || nonce_ctr.fetch_add(1, std::sync::atomic::Ordering::Relaxed);
+	match op.clone() {
+		PlanOp::Call => {
+			let n = fresh();
+			rt::event("op-call", format!("t{ti} nonce={n}"));
+			let r: Result<Value, Error> = client.request("m", rpc_params![n]).await;
+			let st = rt::event("op-done", format!("t{ti} nonce={n} {r:?}"));
+			let outcome = match r {
+				Ok(v) => Outcome::Call(Ok(v.clone()), Some(Ans::Ok(v))),
+				Err(e) => match client_err_to_ans(&e) {
+					Ok(a) => Outcome::Call(Err(format!("{e:?}")), Some(a)),
+					Err(s) => Outcome::Call(Err(s), None),
+				},
+			};
+			return OpRec { nonces: vec![n], done_stamp: st, outcome };
+		}
+		PlanOp::Batch(k) => {
+			let nonces: Vec<u64> = (0..k).map(|_| fresh()).collect();
+			let mut b = BatchRequestBuilder::new();
+			for n in &nonces {
+				b.insert("m", rpc_params![*n]).unwrap();
+			}
+			rt::event("op-batch", format!("t{ti} nonces={nonces:?}"));
+			let r: Result<BatchResponse<Value>, Error> = client.batch_request(b).await;
+			let st = rt::event("op-done", format!("t{ti} nonces={nonces:?} {r:?}"));
+			let outcome = match r {
+				Ok(br) => Outcome::Batch(Ok(br
+					.into_iter()
+					.map(|e| match e {
+						Ok(v) => Ans::Ok(v),
+						Err(o) => Ans::Err(
+							o.code() as i64,
+							o.message().to_string(),
+							o.data().map(|d| serde_json::from_str(d.get()).unwrap()),
+						),
+					})
+					.collect())),
+				Err(e) => Outcome::Batch(Err(format!("{e:?}"))),
+			};
+			return OpRec { nonces, done_stamp: st, outcome };
+		}
+		PlanOp::Subscribe => {
+			let n = fresh();
+			rt::event("op-sub", format!("t{ti} nonce={n}"));
+			let r: Result<Subscription<Value>, Error> = client.subscribe("sub", rpc_params![n], "unsub").await;
+			let st = rt::event("op-done", format!("t{ti} nonce={n} sub ok={}", r.is_ok()));
+			let outcome = match r {
+				Ok(s) => {
+					let sid = match s.kind() {
+						SubscriptionKind::Subscription(id) => serde_json::to_value(id).unwrap(),
+						_ => Value::Null,
+					};
+					held.push(s);
+					Outcome::Sub(Ok(sid.clone()), Some(Ans::Ok(sid)))
+				}
+				Err(e) => match client_err_to_ans(&e) {
+					Ok(a) => Outcome::Sub(Err(format!("{e:?}")), Some(a)),
+					Err(s) => Outcome::Sub(Err(s), None),
+				},
+			};
+			return OpRec { nonces: vec![n], done_stamp: st, outcome };
+		}
+		PlanOp::Notif => {
+			let n = fresh();
+			let r = client.notification("note", rpc_params![n]).await;
+			let st = rt::event("op-done", format!("t{ti} notif nonce={n} {r:?}"));
+			return OpRec { nonces: vec![n], done_stamp: st, outcome: Outcome::Notif(r.map_err(|e| format!("{e:?}"))) };
+		}
+	}
+}
+
 pub async fn scenario() {
 	// ---------------- plan (drawn up front) ----------------
 	let n_front = rt::draw_range("n_front", 2, 5);
@@ -120,131 +325,7 @@ pub async fn scenario() {
 	let peer_log: Arc<Mutex<PeerLog>> = Arc::default();
 	let nonce_ctr = Arc::new(std::sync::atomic::AtomicU64::new(1));
 
-	// ---------------- peer ----------------
-	let peer = {
-		let wire = wire.clone();
-		let peer_log = peer_log.clone();
-		rt::spawn("peer", async move {
-			// (entries (nonce, id), is_sub, is_batch)
-			let mut outstanding: Vec<(Vec<(Option<u64>, Value)>, bool, bool)> = Vec::new();
-			// single calls already answered: (nonce, id)
-			let mut answered: Vec<(Option<u64>, Value)> = Vec::new();
-			let mut live_subs: Vec<Value> = Vec::new();
-			let mut next_val = 1_000_000u64;
-			let mut next_sub = 500u64;
-			let register = |m: super::OutMsg, outstanding: &mut Vec<(Vec<(Option<u64>, Value)>, bool, bool)>| match parse_out(&m.text) {
-				Parsed::Call { id, method, params } => outstanding.push((vec![(nonce_of(&params), id)], method == "sub", false)),
-				Parsed::Batch(es) => {
-					let ids: Vec<(Option<u64>, Value)> = es
-						.iter()
-						.filter_map(|e| if let Parsed::Call { id, params, .. } = e { Some((nonce_of(params), id.clone())) } else { None })
-						.collect();
-					if !ids.is_empty() {
-						outstanding.push((ids, false, true));
-					}
-				}
-				_ => {}
-			};
-			loop {
-				while let Some(m) = wire.try_next_out() {
-					register(m, &mut outstanding);
-				}
-				if outstanding.is_empty() {
-					match wire.next_out().await {
-						Some(m) => register(m, &mut outstanding),
-						None => break,
-					}
-					continue;
-				}
-				let act = rt::draw("peer-act", 10);
-				match act {
-					0..=4 | 8 | 9 => {
-						if (act == 8 || act == 9) && hostile {
-							// hostile: duplicate an earlier answer (new nonce) or invent an id
-							peer_log.lock().unwrap().hostile_actions += 1;
-							rt::probe("hostile_action");
-							if act == 8 && !answered.is_empty() {
-								let (nonce, id) = rt::pick("dup-id", &answered).clone();
-								next_val += 1;
-								let a = Ans::Ok(json!(next_val));
-								let seq = wire.push_text(ans_to_text(&id, &a));
-								peer_log.lock().unwrap().answers.push(Answer { nonce, id: id.to_string(), ans: a, push_seq: seq, kind: "dup" });
-							} else {
-								let id = if id_kind_str { json!("77777") } else { json!(77777) };
-								next_val += 1;
-								let a = Ans::Ok(json!(next_val));
-								let seq = wire.push_text(ans_to_text(&id, &a));
-								peer_log.lock().unwrap().answers.push(Answer { nonce: None, id: id.to_string(), ans: a, push_seq: seq, kind: "unknown" });
-							}
-							continue;
-						}
-						let k = rt::draw("which", outstanding.len() as u32) as usize;
-						let (ids, is_sub, is_batch) = outstanding.remove(k);
-						let mut mk = |nonce: Option<u64>, id: &Value, is_sub: bool| -> (String, Answer) {
-							let a = if rt::chance("err", 1, 4) {
-								next_val += 1;
-								Ans::Err(-32000 - (next_val % 90) as i64, format!("e{next_val}"), if next_val % 2 == 0 { Some(json!({"n": next_val})) } else { None })
-							} else if is_sub {
-								next_sub += 1;
-								let sid = if next_sub % 2 == 0 { json!(next_sub) } else { json!(format!("s{next_sub}")) };
-								live_subs.push(sid.clone());
-								Ans::Ok(sid)
-							} else {
-								next_val += 1;
-								Ans::Ok(json!(next_val))
-							};
-							(ans_to_text(id, &a), Answer { nonce, id: id.to_string(), ans: a, push_seq: 0, kind: "first" })
-						};
-						if !is_batch {
-							let (text, mut a) = mk(ids[0].0, &ids[0].1, is_sub);
-							a.push_seq = wire.push_text(text);
-							answered.push(ids[0].clone());
-							peer_log.lock().unwrap().answers.push(a);
-						} else {
-							// batch reply in a drawn permutation
-							let mut parts: Vec<(String, Answer)> = ids.iter().map(|i| mk(i.0, &i.1, false)).collect();
-							let mut order = Vec::new();
-							while !parts.is_empty() {
-								let j = rt::draw("perm", parts.len() as u32) as usize;
-								order.push(parts.remove(j));
-							}
-							let text = format!("[{}]", order.iter().map(|p| p.0.as_str()).collect::<Vec<_>>().join(","));
-							let seq = wire.push_text(text);
-							for (_, mut a) in order {
-								a.push_seq = seq;
-								peer_log.lock().unwrap().answers.push(a);
-							}
-						}
-					}
-					5 => {
-						let ms = rt::draw_range("lat", 1, 40);
-						tokio::time::sleep(Duration::from_millis(ms as u64)).await;
-					}
-					6 => {
-						// noise: notifications, singly or grouped
-						rt::probe("noise");
-						let mut items = Vec::new();
-						for _ in 0..rt::draw_range("noise_n", 1, 3) {
-							next_val += 1;
-							items.push(match rt::draw("noise_kind", 3) {
-								0 => method_notif("noise", Some(&json!([next_val]))),
-								1 if !live_subs.is_empty() => sub_notif("n", rt::pick("ls", &live_subs), &json!(next_val)),
-								_ => sub_notif("n", &json!(424242), &json!(next_val)),
-							});
-						}
-						if items.len() > 1 && rt::chance("group", 1, 2) {
-							wire.push_text(format!("[{}]", items.join(",")));
-						} else {
-							for i in items {
-								wire.push_text(i);
-							}
-						}
-					}
-					_ => rt::yield_n(1).await,
-				}
-			}
-		})
-	};
+	let peer = spawn_peer(wire.clone(), peer_log.clone(), PeerCfg { hostile, id_kind_str });
 
 	// ---------------- front-ends ----------------
 	let mut hs = Vec::new();
@@ -255,75 +336,8 @@ pub async fn scenario() {
 		hs.push(rt::spawn("front", async move {
 			let mut held: Vec<Subscription<Value>> = Vec::new();
 			for op in plan {
-				let mut fresh = || nonce_ctr.fetch_add(1, std::sync::atomic::Ordering::Relaxed);
-				match op {
-					PlanOp::Call => {
-						let n = fresh();
-						rt::event("op-call", format!("t{ti} nonce={n}"));
-						let r: Result<Value, Error> = client.request("m", rpc_params![n]).await;
-						let st = rt::event("op-done", format!("t{ti} nonce={n} {r:?}"));
-						let outcome = match r {
-							Ok(v) => Outcome::Call(Ok(v.clone()), Some(Ans::Ok(v))),
-							Err(e) => match client_err_to_ans(&e) {
-								Ok(a) => Outcome::Call(Err(format!("{e:?}")), Some(a)),
-								Err(s) => Outcome::Call(Err(s), None),
-							},
-						};
-						ops.lock().unwrap().push(OpRec { nonces: vec![n], done_stamp: st, outcome });
-					}
-					PlanOp::Batch(k) => {
-						let nonces: Vec<u64> = (0..k).map(|_| fresh()).collect();
-						let mut b = BatchRequestBuilder::new();
-						for n in &nonces {
-							b.insert("m", rpc_params![*n]).unwrap();
-						}
-						rt::event("op-batch", format!("t{ti} nonces={nonces:?}"));
-						let r: Result<BatchResponse<Value>, Error> = client.batch_request(b).await;
-						let st = rt::event("op-done", format!("t{ti} nonces={nonces:?} {r:?}"));
-						let outcome = match r {
-							Ok(br) => Outcome::Batch(Ok(br
-								.into_iter()
-								.map(|e| match e {
-									Ok(v) => Ans::Ok(v),
-									Err(o) => Ans::Err(
-										o.code() as i64,
-										o.message().to_string(),
-										o.data().map(|d| serde_json::from_str(d.get()).unwrap()),
-									),
-								})
-								.collect())),
-							Err(e) => Outcome::Batch(Err(format!("{e:?}"))),
-						};
-						ops.lock().unwrap().push(OpRec { nonces, done_stamp: st, outcome });
-					}
-					PlanOp::Subscribe => {
-						let n = fresh();
-						rt::event("op-sub", format!("t{ti} nonce={n}"));
-						let r: Result<Subscription<Value>, Error> = client.subscribe("sub", rpc_params![n], "unsub").await;
-						let st = rt::event("op-done", format!("t{ti} nonce={n} sub ok={}", r.is_ok()));
-						let outcome = match r {
-							Ok(s) => {
-								let sid = match s.kind() {
-									SubscriptionKind::Subscription(id) => serde_json::to_value(id).unwrap(),
-									_ => Value::Null,
-								};
-								held.push(s);
-								Outcome::Sub(Ok(sid.clone()), Some(Ans::Ok(sid)))
-							}
-							Err(e) => match client_err_to_ans(&e) {
-								Ok(a) => Outcome::Sub(Err(format!("{e:?}")), Some(a)),
-								Err(s) => Outcome::Sub(Err(s), None),
-							},
-						};
-						ops.lock().unwrap().push(OpRec { nonces: vec![n], done_stamp: st, outcome });
-					}
-					PlanOp::Notif => {
-						let n = fresh();
-						let r = client.notification("note", rpc_params![n]).await;
-						let st = rt::event("op-done", format!("t{ti} notif nonce={n} {r:?}"));
-						ops.lock().unwrap().push(OpRec { nonces: vec![n], done_stamp: st, outcome: Outcome::Notif(r.map_err(|e| format!("{e:?}"))) });
-					}
-				}
+				let rec = run_op(&client, ti, &op, &nonce_ctr, &mut held).await;
+				ops.lock().unwrap().push(rec);
 			}
 			drop(held);
 		}));
